@@ -1,6 +1,6 @@
 From Coq Require Import ZArith List String Bool.
 From FV Require Import Base.Ser Base.Res C02.Model C02.ModelGlyf.
-From FV Require C02.ModelCmap C02.ModelComponent C02.ModelKern C02.ModelCmap6.
+From FV Require C02.ModelCmap C02.ModelComponent C02.ModelKern C02.ModelCmap6 C02.ModelCmap4.
 Import ListNotations.
 Open Scope string_scope.
 Definition cmap12_compile_t (hdr : Z * Z * Z * Z) (m : list (Z * Z)) : Res (list Z) :=
@@ -31,6 +31,9 @@ Definition reg : registry := [
   ("kern0_compile", run4 ModelKern.kern0_compile);
   ("kern0_decompile", run2 ModelKern.kern0_decompile);
   ("cmap6_compile", run2 ModelCmap6.cmap6_compile);
-  ("cmap6_decompile", run1 ModelCmap6.cmap6_decompile)
+  ("cmap6_decompile", run1 ModelCmap6.cmap6_decompile);
+  ("cmap4_compile", run2 ModelCmap4.cmap4_compile);
+  ("cmap4_decompile", run1 ModelCmap4.cmap4_decompile);
+  ("splitRange", run3 (fun S E m => @Ok (list Z * list Z) (ModelCmap4.splitRange S E m)))
 ].
 Definition fv_entry := dispatch reg.
